@@ -120,6 +120,15 @@ class WindElem:
         self.s = s
 
 
+class ReasonV:
+    """a RangeError reason: Lean expression of type Model.Reason"""
+    def __init__(self, s):
+        self.s = s
+
+
+REASONS = {'MinimumVelocityReached': '.minVelocity', 'MaximumDropReached': '.maxDrop', 'MinimumAltitudeReached': '.minAltitude'}
+
+
 class StrC:
     def __init__(self, v):
         self.v = v
@@ -219,6 +228,8 @@ class Evaluator:
                 return env[d]
             if d == 'math.pi':
                 return Num('Fn.pi')
+            if d and d.startswith('RangeError.') and d.split('.', 1)[1] in REASONS:
+                return ReasonV(REASONS[d.split('.', 1)[1]])
             if d and d.startswith('TrajFlag.'):
                 n = d.split('.', 1)[1]
                 if n == 'NONE':
@@ -448,6 +459,10 @@ class Evaluator:
             if x == y:
                 return Num(x)
             return Num(f'(if {c.as_if()} then {x} else {y})')
+        if isinstance(a, ReasonV) and isinstance(b, ReasonV):
+            if a.s == b.s:
+                return a
+            return ReasonV(f'(if {c.as_if()} then {a.s} else {b.s})')
         if isinstance(a, IntSym) and isinstance(b, IntSym):
             if a.s == b.s:
                 return a
@@ -539,6 +554,10 @@ class Evaluator:
                     base = None
                 if isinstance(base, Vec):
                     return self.call_method('Vector', f.attr, base, args, env)
+        if isinstance(f, ast.Attribute) and d is None:
+            base = self.ev(f.value, env)
+            if isinstance(base, Vec):
+                return self.call_method('Vector', f.attr, base, args, env)
         if isinstance(f, ast.Name):
             if f.id in env and isinstance(env[f.id], Closure):
                 c = env[f.id]
@@ -1055,6 +1074,67 @@ def emit_sock(ev):
     return '\n'.join(out)
 
 
+def emit_loop_parts(ev):
+    """further slices of `TrajectoryCalc._integrate`: the initial state, `min_step`, the loop condition, the limit checks"""
+    f = ev.method('TrajectoryCalc', '_integrate')
+    out = []
+    # --- initial state: the assignments to range_vector / velocity_vector before the loop
+    pre = []
+    for n in f.body:
+        if isinstance(n, ast.While):
+            break
+        pre.append(n)
+    def assigned(n, name):   # noqa: E306
+        t = n.targets[0] if isinstance(n, ast.Assign) else n.target if isinstance(n, ast.AnnAssign) else None
+        return isinstance(t, ast.Name) and t.id == name
+    init = [n for n in pre if assigned(n, 'velocity') or assigned(n, 'range_vector') or assigned(n, 'velocity_vector') or assigned(n, 'time')]
+    if len(init) != 4:
+        raise Unsupported('the initial-state assignments of _integrate were not recognised')
+    env = {'self.muzzle_velocity': Num('r.muzzleVelocity'), 'self.cant_cosine': Num('r.cantCos'), 'self.cant_sine': Num('r.cantSin'),
+           'self.sight_height': Num('r.sightHeight'), 'self.barrel_elevation': Num('barrelElevation'),
+           'self.barrel_azimuth': Num('r.barrelAzimuth'), 'self.__class__': 'TrajectoryCalc'}
+    if ev.block(init, env) is not None:
+        raise Unsupported('return in the initial-state region')
+    P, V = env['range_vector'], env['velocity_vector']
+    v3 = lambda v: f'⟨{num(v.x)}, {num(v.y)}, {num(v.z)}⟩'   # noqa: E731
+    out.append('/-- the state `_integrate` starts from (muzzle displaced by the canted sight height, launch along the barrel direction) -/\n'
+               f'def initial_state (r : Model.Run α) (barrelElevation : α) : Model.St α :=\n  ⟨{v3(P)}, {v3(V)}, {num(env["time"])}⟩\n')
+    # --- min_step
+    ms = [n for n in pre if assigned(n, 'min_step')]
+    if len(ms) != 1:
+        raise Unsupported('min_step not found')
+    v = ev.ev(ms[0].value, {'self.calc_step': Num('calcStep'), 'record_step': Num('recordStep')})
+    out.append(f'/-- `min_step` -/\ndef min_step (calcStep recordStep : α) : α :=\n  {num(v)}\n')
+    # --- loop condition
+    loop = [n for n in f.body if isinstance(n, ast.While)][0]
+    c = ev.cond(loop.test, {'range_vector': Vec(Num('x'), Num('0.0'), Num('0.0')), 'maximum_range': Num('maxRange'),
+                            'min_step': Num('minStep'), 'last_x': Num('lastX')})
+    if c.kind != 'prop':
+        raise Unsupported('loop condition')
+    out.append(f'/-- the condition of the `while` loop of `_integrate` -/\ndef loop_condition (x maxRange minStep lastX : α) : Prop :=\n  {c.s}\n')
+    # --- limit checks: the `if` of the loop body whose test mentions _cMinimumVelocity
+    lim = [n for n in loop.body if isinstance(n, ast.If) and '_cMinimumVelocity' in ast.dump(n.test)]
+    if len(lim) != 1:
+        raise Unsupported('the limit check of _integrate was not recognised')
+    env = {'velocity': Num('velocity'), 'range_vector': Vec(Num('0.0'), Num('y'), Num('0.0')), 'self.alt0': Num('alt0'),
+           '_cMinimumVelocity': Num('minVel'), '_cMaximumDrop': Num('maxDrop'), '_cMinimumAltitude': Num('minAlt'),
+           'self.__class__': 'TrajectoryCalc'}
+    outer = ev.cond(lim[0].test, env)
+    inner = [n for n in lim[0].body if isinstance(n, ast.If)]
+    rz = [n for n in lim[0].body if isinstance(n, ast.Raise)]
+    if len(inner) != 1 or len(rz) != 1 or lim[0].orelse:
+        raise Unsupported('the body of the limit check was not recognised')
+    if ev.block(inner, env) is not None or not isinstance(env.get('reason'), ReasonV):
+        raise Unsupported('the reason of the limit check was not recognised')
+    if not (isinstance(rz[0].exc, ast.Call) and ev.dotted(rz[0].exc.func) == 'RangeError' and isinstance(rz[0].exc.args[0], ast.Name)
+            and rz[0].exc.args[0].id == 'reason'):
+        raise Unsupported('the limit check does not raise RangeError(reason, …)')
+    out.append('/-- the limit check after every step: `none` = the loop goes on, `some reason` = `raise RangeError(reason, rows)` -/\n'
+               'def limit_reason (minVel maxDrop minAlt alt0 velocity y : α) : Option Model.Reason :=\n'
+               f'  if {outer.as_if()} then some {env["reason"].s} else none\n')
+    return '\n'.join(out)
+
+
 def find_self_assign(ev, cls, meth, attr):
     m = ev.method(cls, meth)
     for n in ast.walk(m) if m else []:
@@ -1118,7 +1198,8 @@ def generate(repo: Path) -> str:
     for spec in FILTER_SPECS:
         out.append(emit_filter(ev, spec))
     out.append(emit_sock(ev))
-    out += ['end', '', 'def translated : List String := [' + ', '.join(f'"{s[0]}"' for s in SPECS) + ', "step", ' + ', '.join(f'"{s[0]}"' for s in FILTER_SPECS) + ', "sock_init", "sock_vector_for_range", "sock_current_vector"]', '', 'end BC.Gen.Src', '']
+    out.append(emit_loop_parts(ev))
+    out += ['end', '', 'def translated : List String := [' + ', '.join(f'"{s[0]}"' for s in SPECS) + ', "step", ' + ', '.join(f'"{s[0]}"' for s in FILTER_SPECS) + ', "sock_init", "sock_vector_for_range", "sock_current_vector", "initial_state", "min_step", "loop_condition", "limit_reason"]', '', 'end BC.Gen.Src', '']
     return '\n'.join(out)
 
 
